@@ -117,6 +117,8 @@ def _parse_extensions(value: t.Optional[str]) -> t.Dict[str, t.List[str]]:
     while value:
         key, remaining = value.lstrip(" ").split(" ", 1)
         key = key[2:]
+        # More than one space is allowed between the name and its value(s).
+        remaining = remaining.lstrip(" ")
 
         entries: t.List[str] = []
         if remaining.startswith("("):
